@@ -21,6 +21,7 @@ import (
 	"errors"
 	"fmt"
 	"reflect"
+	"sort"
 
 	"github.com/cloudwego/eino/components/document"
 	"github.com/cloudwego/eino/components/embedding"
@@ -346,7 +347,16 @@ func (c *Chain[I, O]) AppendBranch(b *ChainBranch) *Chain[I, O] { // nolint: byt
 	prefix := c.nextNodeKey()
 	key2NodeKey := make(map[string]string, len(b.key2BranchNode))
 
+	// the branch targets are added, and later connected to the next stage, in the order of their keys:
+	// a pass-through stage takes the type of the first target it is connected to, so the order must not
+	// be that of a map iteration
+	branchKeys := make([]string, 0, len(b.key2BranchNode))
 	for key := range b.key2BranchNode {
+		branchKeys = append(branchKeys, key)
+	}
+	sort.Strings(branchKeys)
+
+	for _, key := range branchKeys {
 		node := b.key2BranchNode[key]
 
 		var nodeKey string
@@ -414,7 +424,10 @@ func (c *Chain[I, O]) AppendBranch(b *ChainBranch) *Chain[I, O] { // nolint: byt
 		return c
 	}
 
-	c.preNodeKeys = gmap.Values(key2NodeKey)
+	c.preNodeKeys = make([]string, 0, len(branchKeys))
+	for _, key := range branchKeys {
+		c.preNodeKeys = append(c.preNodeKeys, key2NodeKey[key])
+	}
 
 	return c
 }
